@@ -44,8 +44,8 @@ MANY = [253, 254, 255, 256, 300]
 SEEDS = ["libimp", "libimp_pe", "libimp_elf"]
 REGION = 256  # functions that fit in one 0x1000 region at 0x10 bytes per stub: only used to *classify* witnesses in signatures
 
-# depth bound per class: the subclasses only inherit the two methods, one level less is spent on them
-DEPTH = {"quick": {"libimp": 5, "libimp_pe": 4, "libimp_elf": 4}, "thorough": {"libimp": 6, "libimp_pe": 5, "libimp_elf": 5}}
+# depth bound per class: the subclasses only inherit the two methods (libimp_elf is an empty subclass), fewer levels are spent on them
+DEPTH = {"quick": {"libimp": 5, "libimp_pe": 4, "libimp_elf": 4}, "thorough": {"libimp": 6, "libimp_pe": 5, "libimp_elf": 4}}
 
 _TIER = {"quick": True}
 
